@@ -105,6 +105,11 @@ public:
   ghost_var_manager_t &operator=(const ghost_var_manager_t &o) = default;
   ghost_var_manager_t &operator=(ghost_var_manager_t &&o) = default;
 
+  // The function used to get the type of each variable is bound to
+  // the abstract value that owns this manager. It must be replaced
+  // when the manager is copied or moved to another owner.
+  void set_get_type_fn(get_type_fn get_type) { m_get_type = get_type; }
+
   ghost_variables_t get_or_insert(const variable_t &v) {
     auto gvars_opt = get(v);
     assert(gvars_opt);
@@ -478,6 +483,11 @@ public:
       default;
   ghost_var_manager_t &operator=(const ghost_var_manager_t &o) = default;
   ghost_var_manager_t &operator=(ghost_var_manager_t &&o) = default;
+
+  // The function used to get the type of each variable is bound to
+  // the abstract value that owns this manager. It must be replaced
+  // when the manager is copied or moved to another owner.
+  void set_get_type_fn(get_type_fn get_type) { m_get_type = get_type; }
 
   ghost_variables_t get_or_insert(const variable_t &v) {
     auto it = m_map.find(v);
